@@ -249,6 +249,7 @@ func c17Journal(drv *core.Driver, qs []string, digits int, k bool) (string, stri
 }
 
 func c17Run(e *core.Env) {
+	e.ReserveTail()
 	amounts := c17All()
 	digits := []int{0, 1, 2, 3, 8}
 	names := [][]string{{"A"}, {"Assets", "Bänk"}, {"資産口座", "Checking"}, {strings.Repeat("LongAccountName", 3), "x"}}
@@ -325,6 +326,7 @@ func c17Run(e *core.Env) {
 			}
 		}
 	}
+	e.BeginTail()
 	if e.Take() {
 		// large tables (700 rows): the renderer may take another code path for them. The
 		// real binary is run free with all CPUs and every line must have the same width;
